@@ -1022,28 +1022,32 @@ func sigv4Diagnose(e *sigv4Env, s *sigv4Spec) string {
 		r := e.deliver(e.hAuth, b.Wire, sigv4Delivery{FailAt: -1})
 		return r.Transport == nil && sigv4Authenticated(r.Status)
 	}
-	v := *s
+	noWS, noQuery := *s, *s
 	if s.InnerWS {
-		v.Header = nil
+		noWS.Header = nil
 		for _, h := range s.Header {
-			v.Header = append(v.Header, [2]string{h[0], strings.Join(strings.Fields(h[1]), " ")})
+			noWS.Header = append(noWS.Header, [2]string{h[0], strings.Join(strings.Fields(h[1]), " ")})
 		}
-		if try(&v) {
+		if try(&noWS) {
 			return "signed-header-inner-whitespace"
 		}
 	}
 	if s.QueryOrder {
-		v.Query = nil
+		noQuery.Query = nil
 		for _, q := range s.Query {
 			if q[0] == "list-type" {
-				v.Query = append(v.Query, q)
+				noQuery.Query = append(noQuery.Query, q)
 			}
 		}
-		if try(&v) {
-			if s.InnerWS {
+		if try(&noQuery) {
+			return "query-sort-encoded-vs-decoded"
+		}
+		if s.InnerWS {
+			both := noQuery
+			both.Header = noWS.Header
+			if try(&both) {
 				return "signed-header-inner-whitespace+query-sort-encoded-vs-decoded"
 			}
-			return "query-sort-encoded-vs-decoded"
 		}
 	}
 	return sigv4ModeNames[s.Mode]
